@@ -200,27 +200,92 @@ def _subst_node(n, old, new):
     return tuple(parts)
 
 
-def iter_source(idx_terms):
-    """idx_terms == { unwrap(next(IT)) } (possibly behind .0/.1 of an enumerate element) -> IT terms"""
+_CTX = [None]
+
+
+def set_ctx(ctx):
+    _CTX[0] = ctx
+
+
+ELEMENT_PICKERS = ('std::iter::Iterator::next', 'std::iter::Iterator::min_by', 'std::iter::Iterator::max_by',
+                   'std::iter::Iterator::min_by_key', 'std::iter::Iterator::max_by_key', 'std::iter::Iterator::min',
+                   'std::iter::Iterator::max', 'std::iter::Iterator::last', 'std::iter::Iterator::find',
+                   'std::iter::Iterator::nth', 'std::iter::DoubleEndedIterator::next_back',
+                   'core::slice::<impl [T]>::first', 'core::slice::<impl [T]>::last')
+ITER_ADAPTORS = ('core::slice::<impl [T]>::iter', 'std::iter::Iterator::copied', 'std::iter::Iterator::cloned',
+                 'std::collections::VecDeque::<T, A>::iter', 'std::iter::Iterator::filter', 'std::iter::Iterator::rev',
+                 'std::iter::Iterator::peekable', 'std::iter::Iterator::by_ref')
+
+
+def _strip_adaptors(it):
+    changed = True
+    while changed and len(it) == 1:
+        changed = False
+        q = next(iter(it))
+        if q[0] == 'call' and q[1] in ITER_ADAPTORS and q[2]:
+            it = q[2][0]
+            changed = True
+    return it
+
+
+def _closure_component_is_param(closure_path, k):
+    """does the closure return a tuple whose k-th component is its own argument (the iterated element)?"""
+    ctx = _CTX[0]
+    if ctx is None:
+        return False
+    for crate in (ctx.core, ctx.py, ctx.js):
+        if crate is None:
+            continue
+        b = crate.body(closure_path)
+        if b is None:
+            continue
+        fn = ctx.fn(b)
+        rt = set()
+        for rb in fn.return_blocks():
+            rt |= fn.local_terms(0, (rb, fn.nstmts(rb)))
+        ok = bool(rt)
+        for n in rt:
+            if n[0] != 'tuple' or k >= len(n[1]):
+                return False
+            comp = strip_clone(n[1][k])
+            if not comp or not all(c[0] == 'param' and c[1] == 2 for c in comp):
+                ok = False
+        return ok
+    return False
+
+
+def iter_source(idx_terms, pickers_only_next=False):
+    """the collection an index / element is drawn from:
+       idx == unwrap(PICK(IT))            PICK in next / min_by / max_by / last / find ...
+       idx == unwrap(PICK(map(IT, |e| (.., e, ..)))).k   when the closure returns the element as component k
+    (iterator adaptors that do not change the elements are looked through); returns IT's terms or None"""
     if len(idx_terms) != 1:
         return None
     n = next(iter(idx_terms))
+    comp = None
+    if n[0] == 'field' and n[2].isdigit() and len(n[1]) == 1 and next(iter(n[1]))[0] == 'unwrap':
+        comp = int(n[2])
+        n = next(iter(n[1]))
     if n[0] != 'unwrap' or len(n[1]) != 1:
         return None
     m = next(iter(n[1]))
-    if m[0] == 'call' and m[1] == 'std::iter::Iterator::next' and m[2]:
-        it = m[2][0]
-        # look through slice::iter / iter().copied() adaptors
-        changed = True
-        while changed and len(it) == 1:
-            changed = False
-            q = next(iter(it))
-            if q[0] == 'call' and q[1] in ('core::slice::<impl [T]>::iter', 'std::iter::Iterator::copied',
-                                           'std::iter::Iterator::cloned', 'std::collections::VecDeque::<T, A>::iter') and q[2]:
-                it = q[2][0]
-                changed = True
-        return it
-    return None
+    if not (m[0] == 'call' and m[1] in ELEMENT_PICKERS and m[2]):
+        return None
+    if pickers_only_next and m[1] != 'std::iter::Iterator::next':
+        return None
+    it = _strip_adaptors(m[2][0])
+    if comp is not None:
+        # only through a map whose closure passes the element through as that component
+        if len(it) != 1:
+            return None
+        q = next(iter(it))
+        if not (q[0] == 'call' and q[1] == 'std::iter::Iterator::map' and len(q[2]) == 2):
+            return None
+        clos = [c for c in q[2][1] if c[0] == 'closure']
+        if len(clos) != len(q[2][1]) or not clos or not all(_closure_component_is_param(c[1], comp) for c in clos):
+            return None
+        return _strip_adaptors(q[2][0])
+    return it
 
 
 LIST_NEW = ('std::vec::Vec::<T>::new', 'std::vec::Vec::<T>::with_capacity', 'std::collections::VecDeque::<T>::new')
